@@ -347,6 +347,40 @@ def job_positions(first):
     return acc
 
 
+HEADER_BASES = ['#language: fr', '# language : fr ', '  #language:no-such', '#language: en_lol', '#language: zh-CN']
+HEADER_EDIT_CHARS = [' ', '\t', '\u00a0', '\u3000', '\u2003', '\u0085', '\u017f', '\u212a', 'L', '1', '\u00e9', '-', ':', '#', '\uff45']
+
+
+@worker
+def job_header_edits(bi):
+    """A language header and every single edit of it (one character inserted from the menu - Unicode blanks, letters that only case-fold to
+    ASCII, digits, full-width letters - deleted, or case-swapped) before an English and a French document, in both default dialects."""
+    acc = Acc()
+    base = HEADER_BASES[bi]
+    seen = set()
+    text = None
+    cands = [base]
+    for i in range(len(base) + 1):
+        cands += [base[:i] + c + base[i:] for c in HEADER_EDIT_CHARS]
+        if i < len(base):
+            cands += [base[:i] + base[i + 1:], base[:i] + base[i].swapcase() + base[i + 1:]]
+    for h in cands:
+        if h in seen:
+            continue
+        seen.add(h)
+        for fol in FOLLOW:
+            for default in ('en', 'fr'):
+                text = h + '\n' + fol
+                a = ast_equal(text, acc, {'kind': 'text', 'text': text, 'default': default}, default=default, sig='header')
+                if a is not None:
+                    name = R.language_header(h.lstrip())
+                    acc.outcomes['header-edit:%s:%s' % ('none' if name is None else ('known' if name in D else 'unknown'), a[0])] += 1
+                    if name is not None:
+                        acc.nontrivial += 1
+    acc.sample({'text': text})
+    return acc
+
+
 def run(ctx):
     probs = R.selftest()
     ctx.selftest(not probs, 'reference pipeline reproduces the acceptance corpus (%s)' % (probs[:3] or 'ok'))
@@ -375,6 +409,7 @@ def run(ctx):
     n = ctx.pick(4, 6)
     ctx.level('header strings <= %d symbols' % n, [job_headers.job(i, None, n) for i in range(len(HSYM))] +
               [job_headers.job(i, j, n) for i in range(len(HSYM)) for j in range(len(HSYM))])
+    ctx.level('single edits of language headers', [job_header_edits.job(i) for i in range(len(HEADER_BASES))])
     ctx.level('header position: prefixes <= 4 lines', [job_positions.job(i) for i in range(len(PLINES))] )
     # empty prefix
     acc = Acc()
